@@ -149,12 +149,29 @@ impl Runner {
                 let what = s["what"].as_str().unwrap_or("connected").to_string();
                 let ok = self.run_until(&what, s["max_us"].as_u64().unwrap_or(10_000_000));
                 let t = self.w.now_us;
+                let eps: Vec<Value> = (0..self.w.nodes.len()).map(|n| self.w.ep_probe(n)).collect();
+                let lc: Vec<Value> = self.w.nodes.iter().flat_map(|n| n.conns.iter().map(move |(c, s)| {
+                    json!({"n":n.idx,"c":c,"uid":s.uid,"drained":s.drained,"lcids":s.conn.verif_probe(std::time::Instant::now()).loc_cid_active.len()})
+                })).collect();
                 self.w
-                    .log(json!({"ev":"Until","t":t,"what":what,"ok":ok}));
+                    .log(json!({"ev":"Until","t":t,"what":what,"ok":ok,"eps":eps,"conns":lc}));
             }
             "op" => {
                 let n = s["n"].as_u64().unwrap() as usize;
-                let c = s["c"].as_u64().unwrap_or(0) as usize;
+                let mut c = s["c"].as_u64().unwrap_or(0) as usize;
+                if let Some(k) = s["peer_of"].as_u64() {
+                    // address the (latest, live) connection whose peer is node k rather than a handle
+                    let found = self.w.nodes[n].conns.iter().filter(|(_, sl)| sl.peer == k as usize && !sl.drained)
+                        .max_by_key(|(_, sl)| sl.uid).map(|(c, _)| *c);
+                    match found {
+                        Some(x) => c = x,
+                        None => {
+                            let t = self.w.now_us;
+                            self.w.log(json!({"ev":"OpSkipped","t":t,"n":n,"peer_of":k}));
+                            return;
+                        }
+                    }
+                }
                 self.w.op_flush(n, c, &s["op"]);
                 self.apps.tick(&mut self.w);
             }
@@ -335,6 +352,7 @@ impl Runner {
         if let Some(last) = self.w.net.last_mut() {
             last.pkts = d.pkts.clone();
             last.damage = d.damage;
+            last.from_uid = d.from_uid;
         }
         self.w.log(json!({"ev":"Replay","t":t,"ok":true,"orig":d.id,"id":id,"cls":cls,
             "src":addr_id(src)}));
@@ -486,8 +504,13 @@ impl Runner {
             .map(|i| u8::from_str_radix(&hexs[2 * i..2 * i + 2], 16).unwrap_or(0))
             .collect();
         let mut left = s["count"].as_u64().unwrap_or(1);
+        // optional: only datagrams from / to this client node
+        let only: Option<std::net::SocketAddr> = s["node"].as_u64().map(|k| self.w.nodes[k as usize].addr);
         self.w.mitm = Some(Box::new(move |d, pkts, ctx| {
             if left == 0 || ctx.from_server != from_server {
+                return;
+            }
+            if only.is_some_and(|a| d.src != a && d.dst != a) {
                 return;
             }
             let Some(last) = pkts.last() else { return };
